@@ -974,3 +974,39 @@ x\0\0z
 \0+q
 .|\n
 ''')
+
+# --- an automaton with more than 128 states (16-bit table elements) ----------------
+E('kw_many', 'big bigdfa', r'''
+%%
+abstract
+boolean
+continue
+default
+extends
+finally
+implements
+interface
+native
+package
+private
+protected
+return
+static
+synchronized
+throws
+transient
+volatile
+while
+[a-z]+
+[0-9]+
+[ \t\n]+
+.
+''')
+
+E('w_vartrail_nodefault', 'warnx vartrail nodefault', r'''
+%option nodefault
+%%
+[a-z]+/[0-9]+x
+[a-z]+
+[^a-z]
+''')
